@@ -101,7 +101,7 @@ Proof. intros [] []; simpl; split; intros H; try discriminate; reflexivity. Qed.
 
 Lemma output_eqb_eq : forall a b, output_eqb a b = true -> a = b.
 Proof.
-  intros a b H. destruct a as [|x|st p nx|ra|l e| |], b as [|y|st' p' nx'|rb|l' e'| |]; try (simpl in H; discriminate); try reflexivity;
+  intros a b H. destruct a as [|x|st p nx|ra|l e| | |], b as [|y|st' p' nx'|rb|l' e'| | |]; try (simpl in H; discriminate); try reflexivity;
     try (destruct ra as [|[]|]; simpl in H; discriminate).
   - simpl in H. apply Bool.eqb_prop in H. congruence.
   - simpl in H. apply andb_true_iff in H. destruct H as [H H3]. apply andb_true_iff in H. destruct H as [H1 H2].
@@ -218,6 +218,7 @@ Definition gevent_of (s : mstate) (ev : event) : option gevent :=
   | ERebuild id tip g c e sched anchor txid =>
     Some (GRebuild id (sat_add tip 1) g c e (sched - chain_base s (sat_add tip 1)) anchor txid)
   | EStatuses _ _ => None
+  | EWalletRewind _ achieved => Some (GRollback achieved)
   | ECancel => Some GCancel
   | ESupersede => Some GSupersede
   | ERecompute => Some GRecompute
@@ -375,6 +376,8 @@ Proof.
     assert (TM : sat_add tip 1 <= U32MAX) by (unfold sat_add; lia).
     pose proof (rebuild_b_ok _ _ _ _ (rebuild_exact' pre id (sat_add tip 1) grid_ok crypto_ok external _ anchor txid D TM)) as RB.
     rewrite G' in RB. rewrite G', RB, T. reflexivity.
+  - (* the wallet's own rewind: a rollback at the achieved height *)
+    rewrite (rollback_b_ok _ _ _ L), T. simpl in M. inversion M; subst. reflexivity.
 Qed.
 
 Lemma nodupb_NoDup : forall l, nodupb l = true -> NoDup l.
